@@ -400,4 +400,35 @@ example : lookup 2 (grun exDb ⟨fun _ => 0, fun _ => 0⟩ exHist).1.orders =
       some { state := orderStatePartiallyFilled, unfilled := 3, units := 10, minMatch := 3, isBid := true, tier := 1, extras := 6 } ∧
     (grun exDb ⟨fun _ => 0, fun _ => 0⟩ exHist).2.done 2 = 7 := by decide
 
+/-! ## match splits and the excluded over-fill -/
+
+/-- **C13 / the split is irrelevant**: how the matched units of one order are split over counterparty orders (and in
+which order `MatchedOrders[nonce]` lists them) does not matter – the order after the batch depends on the total only.
+No "no over-fill" hypothesis is needed: the uint64 subtraction chain is a function of the total modulo 2^64. -/
+theorem C13_split_irrelevant (o : Ord) (us vs : List Nat) (hu : o.unfilled < two64) (h : us.sum = vs.sum) :
+    filled o us = filled o vs := by
+  have e : remaining o.unfilled us = remaining o.unfilled vs := by
+    have a1 := remaining_add o.unfilled us
+    have a2 := remaining_add o.unfilled vs
+    have b1 := remaining_lt us hu
+    have b2 := remaining_lt vs hu
+    rw [h] at a1
+    unfold two64 at *
+    omega
+  unfold filled; rw [e]
+
+/-- **C13 / the excluded input**: `C13_fill_exact` assumes the batch does not over-fill the order (guaranteed by the
+verifier, C01).  Outside that guard the real code wraps: the stored remainder is `unfilled + 2^64 − total`, a huge
+number – stated here so that the guard is visibly necessary, not an artefact of the model. -/
+theorem C13_overfill_wraps (u : Nat) (us : List Nat) (hu : u < two64) (hs : us.sum < two64) (h : u < us.sum) :
+    remaining u us = u + two64 - us.sum := by
+  have a := remaining_add u us
+  have b := remaining_lt us hu
+  unfold two64 at *
+  omega
+
+example : remaining 5 [3, 4] = two64 - 2 := by decide
+example : filled { (default : Ord) with unfilled := 10, minMatch := 2 } [3, 4] =
+          filled { (default : Ord) with unfilled := 10, minMatch := 2 } [7] := by decide
+
 end Pool.C13
